@@ -178,11 +178,10 @@ def tla_instance(i):
             "K": i["K"], "N": i["N"]}
 
 
-def run_family_f(prop, tier, seed, report, scratch):
+def run_family_f(prop, tier, seed, report, scratch, fn="LWW"):
     binpath = build_harness(scratch)
     specdir = stage_spec(scratch)
     q = tier == "quick"
-    fn = "LWW"
     consts, scripts = shape_scripts(specdir, tier, seed, fn)
     hcfg = fam_l.harness_cfg(consts, seed)
     cfgp = os.path.join(scratch, "f.cfg.json")
